@@ -182,7 +182,8 @@ class HangForever(BaseException):
 
 
 class World:
-    def __init__(self, resolver=None, outcomes=None, peer_factory=None):
+    def __init__(self, resolver=None, outcomes=None, peer_factory=None, fake_tls=False):
+        self.fake_tls = fake_tls
         self.clock = VClock()
         self.log = []
         self.sockets = []
@@ -230,8 +231,11 @@ class World:
     def __enter__(self):
         import websocket._core as C
         import websocket._http as H
-        for mod, name, val in ((H, "socket", self.socket_module()),
-                               (C, "time", types.SimpleNamespace(time=self.clock.time, sleep=self.clock.sleep))):
+        patches = [(H, "socket", self.socket_module()),
+                   (C, "time", types.SimpleNamespace(time=self.clock.time, sleep=self.clock.sleep))]
+        if self.fake_tls:
+            patches.append((H, "ssl", FakeTLS(self)))
+        for mod, name, val in patches:
             self._saved.append((mod, name, getattr(mod, name)))
             setattr(mod, name, val)
         return self
@@ -241,3 +245,47 @@ class World:
             setattr(mod, name, val)
         self._saved = []
         return False
+
+
+class FakeTLS:
+    """Stand-in for the `ssl` module inside websocket._http for runs where TLS itself is not the
+    subject (C18, C13-C16): records that, and how, a transport would have been wrapped."""
+
+    def __init__(self, world):
+        import ssl as _ssl
+        self.world = world
+        for k in dir(_ssl):
+            if k.isupper() or k in ("Purpose", "SSLError", "SSLEOFError", "SSLWantReadError", "SSLWantWriteError",
+                                    "CertificateError", "TLSVersion", "VerifyMode"):
+                setattr(self, k, getattr(_ssl, k))
+        outer = self
+
+        class SSLContext:
+            def __init__(self, protocol=None):
+                self.protocol = protocol
+                self.check_hostname = True
+                self.verify_mode = _ssl.CERT_REQUIRED
+                self.keylog_filename = None
+
+            def load_verify_locations(self, cafile=None, capath=None, cadata=None):
+                pass
+
+            def load_default_certs(self, purpose=None):
+                pass
+
+            def load_cert_chain(self, *a, **k):
+                pass
+
+            def set_ciphers(self, c):
+                pass
+
+            def set_ecdh_curve(self, c):
+                pass
+
+            def wrap_socket(self, sock, do_handshake_on_connect=True, suppress_ragged_eofs=True, server_hostname=None):
+                outer.world.ev("tls_wrap", sock=sock.id, server_hostname=str(server_hostname),
+                               verify=int(self.verify_mode), check_hostname=bool(self.check_hostname))
+                sock.tls = True
+                return sock
+        self.SSLContext = SSLContext
+        self.SSLSocket = FakeSocket
